@@ -394,6 +394,13 @@ def guards():
     add("grad of a complex output", lambda: grad(lambda v: np.sum(v) * (1.0 + 2.0j))(x3))
     add("value_and_grad of a non-scalar output", lambda: value_and_grad(lambda v: v * 2.0)(x3))
     add("elementwise_grad of a complex output", lambda: elementwise_grad(lambda v: v * (1.0 + 2.0j))(x3))
+    # ... whatever the complex dtype and whether the complex result is a NumPy scalar or a size-1 array
+    c64 = onp.array([1.0 + 2.0j, 3.0 - 1.0j, 0.5j], dtype=onp.complex64)
+    add("grad of a complex64 size-1 array output", lambda: grad(lambda v: np.sum(v * c64, keepdims=True))(x3))
+    add("value_and_grad of a complex64 size-1 array output", lambda: value_and_grad(lambda v: np.sum(v * c64, keepdims=True))(x3))
+    add("elementwise_grad of a complex64 output", lambda: elementwise_grad(lambda v: v * c64)(x3))
+    add("grad of a complex128 size-1 array output", lambda: grad(lambda v: np.sum(v * c64.astype(complex), keepdims=True))(x3))
+    add("grad of a clongdouble size-1 array output", lambda: grad(lambda v: np.sum(v * c64.astype(onp.clongdouble), keepdims=True))(x3))
     add("integer input", lambda: grad(lambda v: v * 2.0)(3))
     add("string input", lambda: grad(lambda v: 1.0)("abc"))
     add("svd with full_matrices=True (u)", lambda: grad(lambda m: np.sum(np.linalg.svd(m)[0]))(gen((2, 3))))
